@@ -81,7 +81,8 @@ class Gen:
             for n in sizes:
                 v = rb(n, f'data-{p}-{n}') if (priv or n < 100000) else patterned(n, f'data-{p}-{n}')[:n]
                 s.create(h, DATA + [('CKA_PRIVATE', priv), ('CKA_LABEL', f'data-{p}-{n}'.encode()), ('CKA_APPLICATION', f'app {p} \xc3\xa9'.encode('latin-1')), ('CKA_OBJECT_ID', oid), ('CKA_VALUE', v)])
-        s.create(h, DATA + [('CKA_PRIVATE', False), ('CKA_LABEL', b'data-frozen'), ('CKA_VALUE', b'frozen'), ('CKA_MODIFIABLE', False), ('CKA_COPYABLE', False), ('CKA_DESTROYABLE', False)])
+        # the db back-end of the pinned tree cannot read CKA_DESTROYABLE back (persist.DB_UNREADABLE): a non-default value there would bake that defect into expect.json
+        s.create(h, DATA + [('CKA_PRIVATE', False), ('CKA_LABEL', b'data-frozen'), ('CKA_VALUE', b'frozen'), ('CKA_MODIFIABLE', False), ('CKA_COPYABLE', False)] + ([('CKA_DESTROYABLE', False)] if s.backend == 'file' else []))
         s.create(h, DATA + [('CKA_PRIVATE', False), ('CKA_LABEL', b''), ('CKA_OBJECT_ID', b'data-empty-label')])
         s.create(h, DATA + [('CKA_PRIVATE', True), ('CKA_LABEL', b'data-priv-binary-label\x00\xff\x00'), ('CKA_APPLICATION', b'\x00\xff'), ('CKA_VALUE', bytes(range(256)))])
         # certificates (dates only on the public ones)
